@@ -115,6 +115,13 @@ type Script struct {
 	DeadlineMS int // request deadline, 0 = none
 	Outcomes   []Outcome
 	Stop       *Stop
+	// Queue in front of the retry sender: "" none (the call returns the retry
+	// sender's verdict) | "wfr" memory queue with wait_for_result (the request
+	// context travels through the queue) | "batcher" the deprecated WithBatcher
+	// without WithQueue (an implicit wait_for_result queue plus a pass-through
+	// batcher) | "async" plain memory queue (the stored context is detached from
+	// the producer's by design: its deadline / cancellation do not apply).
+	Queue string `json:",omitempty"`
 }
 
 func (s *Script) outcome(i int) Outcome {
@@ -264,6 +271,7 @@ func gen(t *rapid.T) Script {
 	if rapid.Bool().Draw(t, "deadline?") {
 		s.DeadlineMS = rapid.OneOf(rapid.IntRange(3, 40), rapid.IntRange(10, 250)).Draw(t, "deadline_ms")
 	}
+	s.Queue = rapid.SampledFrom([]string{"", "", "", "", "wfr", "wfr", "batcher", "async"}).Draw(t, "queue")
 	cur := s.Payload
 	switch mode {
 	case "shutdown":
@@ -339,9 +347,11 @@ type world struct {
 	cancel    func()        // idempotent
 	reached   chan struct{} // closed when attempt Stop.At is about to return (mode wait)
 	reachOnce sync.Once
-	linger    time.Duration // extra time attempt Stop.At stays in the backend after signalling
-	triggered atomic.Bool   // the stop action was started
-	verdict   chan struct{} // closed when an attempt ends with a final outcome (ok / permanent)
+	companion func(v any) (bool, error) // takes over payloads that belong to another request (shutdown-persist)
+	queued    bool                      // a queue sits in front of the retry sender (attempts run on a consumer goroutine)
+	linger    time.Duration             // extra time attempt Stop.At stays in the backend after signalling
+	triggered atomic.Bool               // the stop action was started
+	verdict   chan struct{}             // closed when an attempt ends with a final outcome (ok / permanent)
 	verdOnce  sync.Once
 	first     chan struct{} // closed at the first attempt
 	firstOnce sync.Once
@@ -422,6 +432,11 @@ func buildErr(signal string, o Outcome, base error) error {
 }
 
 func (w *world) push(ctx context.Context, v any) error {
+	if w.companion != nil {
+		if handled, err := w.companion(v); handled {
+			return err
+		}
+	}
 	start := time.Now()
 	dl, has := ctx.Deadline()
 	tree := pview.Of(v)
@@ -448,7 +463,11 @@ func (w *world) push(ctx context.Context, v any) error {
 		case "attempt":
 			w.triggered.Store(true)
 			if st.Kind == "shutdown" {
-				w.shutdown()
+				if w.queued {
+					go w.shutdown() // Shutdown joins the queue consumer this attempt runs on
+				} else {
+					w.shutdown()
+				}
 			} else {
 				w.cancel()
 			}
@@ -487,6 +506,7 @@ type trace struct {
 	ret      error
 	deadline time.Time // request deadline (zero: none)
 	stopped  bool      // a shutdown / cancel was started during the call
+	detached bool      // the request context does not reach the retry sender (plain async queue)
 }
 
 func describe(tr *trace) string {
@@ -553,13 +573,20 @@ func evalTrace(c *vt.C, tr *trace) *vt.Finding {
 			if maxE > 0 && earliest.After(at[0].start.Add(maxE)) {
 				return vt.Failf("retry-beyond-budget", "attempt %d was made although the earliest possible retry time (+%v) is past max_elapsed_time %v counted from the first attempt;%s", i, earliest.Sub(at[0].start), maxE, describe(tr))
 			}
-			if !D.IsZero() && earliest.After(D) {
+			if !D.IsZero() && !tr.detached && earliest.After(D) {
 				return vt.Failf("retry-beyond-deadline", "attempt %d was made although the earliest possible retry time is %v past the request deadline;%s", i, earliest.Sub(D), describe(tr))
 			}
 		} else if !pview.Equal(a.tree, exp) {
 			return vt.Failf("payload/changed", "first attempt does not carry the submitted payload: %s", pview.Diff(exp, a.tree))
 		}
-		// per-attempt deadline
+	}
+	// per-attempt deadline (second pass, so that the retry clauses above are reported first)
+	for i := range at {
+		a := at[i]
+		var lo time.Duration
+		if i > 0 {
+			lo, _ = s.bounds(i - 1)
+		}
 		if T > 0 {
 			if !a.hasDL {
 				return vt.Failf("attempt-deadline/missing", "attempt %d has no context deadline although timeout=%v", i, T)
@@ -573,7 +600,7 @@ func evalTrace(c *vt.C, tr *trace) *vt.Finding {
 				if D.Before(lowExp) {
 					lowExp = D
 				}
-				if D.Before(upExp) {
+				if D.Before(upExp) && !tr.detached { // detached: the statement does not say whether D applies; accept both
 					upExp = D
 				}
 			}
@@ -586,6 +613,8 @@ func evalTrace(c *vt.C, tr *trace) *vt.Finding {
 			if a.dl.After(upExp.Add(tolDL)) {
 				return vt.Failf("attempt-deadline/late", "attempt %d: context deadline is %v after min(request deadline, attempt start + timeout %v)", i, a.dl.Sub(upExp), T)
 			}
+		} else if tr.detached {
+			// no per-attempt timeout and a detached request context: nothing to assert
 		} else if !D.IsZero() {
 			if !a.hasDL || !a.dl.Equal(D) {
 				return vt.Failf("attempt-deadline/request-deadline-lost", "attempt %d: context deadline (has=%v) is not the request deadline", i, a.hasDL)
@@ -671,9 +700,32 @@ func runInner(s *Script) (bool, *vt.Finding) {
 		return false, vt.Failf("harness/config", "generated retry config rejected: %v", err)
 	}
 	w := newWorld(s)
-	exp, err := xh.NewExporter(s.Signal, settings(), w.push,
+	opts := []exporterhelper.Option{
 		exporterhelper.WithRetry(cfg),
-		exporterhelper.WithTimeout(exporterhelper.TimeoutConfig{Timeout: time.Duration(s.TimeoutMS) * time.Millisecond}))
+		exporterhelper.WithTimeout(exporterhelper.TimeoutConfig{Timeout: time.Duration(s.TimeoutMS) * time.Millisecond}),
+	}
+	switch s.Queue {
+	case "wfr", "async":
+		qcfg := exporterhelper.NewDefaultQueueConfig()
+		qcfg.NumConsumers = 2
+		qcfg.QueueSize = 10
+		qcfg.WaitForResult = s.Queue == "wfr"
+		if err := qcfg.Validate(); err != nil {
+			return false, vt.Failf("harness/config", "queue config rejected: %v", err)
+		}
+		opts = append(opts, exporterhelper.WithQueue(qcfg))
+	case "batcher":
+		bcfg := exporterhelper.NewDefaultBatcherConfig()
+		bcfg.FlushTimeout = time.Hour
+		bcfg.MinSize = 0
+		bcfg.MaxSize = 0
+		if err := bcfg.Validate(); err != nil {
+			return false, vt.Failf("harness/config", "batcher config rejected: %v", err)
+		}
+		opts = append(opts, exporterhelper.WithBatcher(bcfg))
+	}
+	w.queued = s.Queue != ""
+	exp, err := xh.NewExporter(s.Signal, settings(), w.push, opts...)
 	if err != nil {
 		return false, vt.Failf("harness/new", "NewExporter: %v", err)
 	}
@@ -684,16 +736,18 @@ func runInner(s *Script) (bool, *vt.Finding) {
 	var sdErr error
 	var sdRet time.Time
 	var sdMu sync.Mutex
+	var sdDone atomic.Bool
 	w.shutdown = func() {
 		sdOnce.Do(func() {
 			e := exp.Shutdown(context.Background())
 			sdMu.Lock()
 			sdErr, sdRet = e, time.Now()
 			sdMu.Unlock()
+			sdDone.Store(true)
 		})
 	}
 	ctx := context.Background()
-	tr := &trace{s: s, haveRet: true}
+	tr := &trace{s: s, haveRet: true, detached: s.Queue == "async"}
 	if s.DeadlineMS > 0 {
 		tr.deadline = time.Now().Add(time.Duration(s.DeadlineMS) * time.Millisecond)
 		var cancel context.CancelFunc
@@ -736,6 +790,19 @@ func runInner(s *Script) (bool, *vt.Finding) {
 	tr.t0 = time.Now()
 	tr.ret = exp.Consume(ctx, payload)
 	tr.tRet = time.Now()
+	// With a queue the call can return before the retry loop is over: always with the plain async queue, and in
+	// the wait_for_result modes when the producer's context ended first (Offer then returns ctx.Err()).  If the
+	// context is still alive here, Offer returned the consumer's result, i.e. the loop is over.
+	if s.Queue == "async" || (s.Queue != "" && ctx.Err() != nil) {
+		tr.haveRet = false
+		// keep observing until the loop has visibly ended: a final outcome, a completed Shutdown, or silence for
+		// longer than the longest possible next wait (observing for too short a time can only hide a violation)
+		for hard := time.Now().Add(20 * time.Second); time.Now().Before(hard); time.Sleep(200 * time.Microsecond) {
+			if settled(w, s, tr.tRet, &sdDone) {
+				break
+			}
+		}
+	}
 	close(done)
 	helper.Wait()
 	tr.stopped = w.triggered.Load()
@@ -745,7 +812,7 @@ func runInner(s *Script) (bool, *vt.Finding) {
 		return false, vt.Failf("shutdown-error", "Shutdown: %v", sdErr)
 	}
 	tr.attempts = w.snapshot()
-	if len(tr.attempts) != n0 {
+	if tr.haveRet && len(tr.attempts) != n0 {
 		return true, vt.Failf("call-after-return", "%d attempts were made after the call returned", len(tr.attempts)-n0)
 	}
 
@@ -756,13 +823,13 @@ func runInner(s *Script) (bool, *vt.Finding) {
 			if len(tr.attempts) > st.At+1 {
 				return true, vt.Failf("attempt-after-shutdown", "shutdown arrived (%s) at attempt %d, whose failure asked for a wait of at least %v, yet attempt %d was made;%s", st.Mode, st.At, lo, st.At+1, describe(tr))
 			}
-			if tr.ret == nil {
+			if tr.haveRet && tr.ret == nil {
 				return true, vt.Failf("verdict/nil-after-failure", "shutdown interrupted the wait after failed attempt %d but the call returned nil", st.At)
 			}
 			sdMu.Lock()
 			late := tr.tRet.Sub(sdRet)
 			sdMu.Unlock()
-			if late > promptness {
+			if tr.haveRet && late > promptness {
 				return true, vt.Failf("shutdown-return-slow/timing", "the call returned %v after Shutdown returned (wait asked for: %v)", late, lo)
 			}
 			cR.Class("shutdown-interrupts-wait:" + st.Mode)
@@ -775,10 +842,44 @@ func runInner(s *Script) (bool, *vt.Finding) {
 	return len(tr.attempts) >= 2, nil
 }
 
+// settled reports whether the retry loop behind a queue has visibly ended.
+func settled(w *world, s *Script, tRet time.Time, sdDone *atomic.Bool) bool {
+	select {
+	case <-w.verdict:
+		return true
+	default:
+	}
+	if sdDone.Load() {
+		return true
+	}
+	at := w.snapshot()
+	n := len(at)
+	if n == 0 {
+		return time.Since(tRet) > 50*time.Millisecond
+	}
+	if at[n-1].end.IsZero() {
+		return false
+	}
+	_, hi := s.bounds(n - 1)
+	return time.Since(at[n-1].end) > hi+25*time.Millisecond
+}
+
 func classify(c *vt.C, tr *trace) {
 	s := tr.s
 	n := len(tr.attempts)
-	c.Class("signal:"+s.Signal, fmt.Sprintf("attempts:%d", n))
+	qn := s.Queue
+	if qn == "" {
+		qn = "none"
+	}
+	c.Class("signal:"+s.Signal, fmt.Sprintf("attempts:%d", n), "queue:"+qn)
+	if s.Queue != "" && s.Queue != "async" {
+		if !tr.haveRet {
+			c.Class("queue:" + qn + "/producer-context-ended-first")
+		}
+		if !tr.deadline.IsZero() && n >= 2 {
+			c.Class("queue:" + qn + "/retry-under-request-deadline")
+		}
+	}
 	if !s.Backoff.Enabled {
 		c.Class("retry-disabled")
 		if n == 1 && !s.outcome(0).OK {
